@@ -9,8 +9,20 @@ reg("C18",
     outside="more than NOPS operations; more than two tag names; wall-clock alarms (C17)",
     assumptions=["NodeScheduler is driven directly over a NodeSchedulerState with graph == nullptr (the graph slot is covered by C18_sched_graph)"],
     )
+reg("C18",
+    name="C18_sched_graph", src="harness/C18_sched_graph.cpp",
+    anchor_files=["include/hgraph/runtime/node_scheduler.h", "src/hgraph/runtime/node.cpp", "src/hgraph/runtime/graph.cpp", "include/hgraph/types/static_node.h"],
+    quick=dict(defs=dict(NEVALS=2, OPS_PER_EVAL=2, KMAX=3, WIN=6), symx=dict(shards=16, **{"max-wall": 900})),
+    thorough=dict(defs=dict(NEVALS=3, OPS_PER_EVAL=2, KMAX=3, WIN=8), symx=dict(shards=16, **{"max-wall": 3000, "shard-depth": 8})),
+    reach=["end", "three_evals", "tag_replaced", "cancel_tag", "cancel_earliest", "ignored_past_or_now"],
+    bounds="a scripted node performs OPS_PER_EVAL scheduler actions in each of its first NEVALS evaluations, actions from {schedule(delta, none/a/b), un_schedule(), "
+           "un_schedule(a/b), pop_tag(a/b), reset, nothing}; deltas symbolic in [-1,KMAX]; its input ticks twice with a symbolic period in [1,KMAX]; a second "
+           "scheduler node runs beside it; window WIN us",
+    outside="more evaluations/actions; wall-clock alarms; nested graphs (C09)",
+    )
 
 META = dict(
-    level="bounded symbolic model checking of NodeScheduler (node_scheduler.h) against a mirror model: every operation sequence up to the bound, all requested times symbolic",
-    note="bounds and what lies outside them are in evidence coverage.harnesses[*].bounds/outside; unit level drives the header-only scheduler with graph==nullptr",
+    level="bounded symbolic model checking of NodeScheduler (node_scheduler.h) against a mirror model of the pending requests - unit level (all operation "
+          "sequences up to the bound, all requested times symbolic) and inside a real graph (node.cpp evaluate_impl re-arm/advance, graph.cpp schedule slot)",
+    note="known finding O1 (wake at a cancelled time) is listed in known_findings.jsonl and printed as KNOWN-FINDING; bounds in evidence coverage.harnesses[*].bounds",
 )
